@@ -1299,6 +1299,11 @@ def build_operator_operand_fixup(capture_error_state):
                     capture_error_state(True, f'Values: {left_op} {op} {right_op}')
                     return VALUE_ERROR
 
+            if op == 'Pow' and is_number(left_op) and left_op < 0 and right_op % 1:
+                # a negative number to a fractional power is not a real number
+                capture_error_state(True, f'Values: {left_op} {op} {right_op}')
+                return NUM_ERROR
+
         try:
             if op == 'USub':
                 return PYTHON_AST_OPERATORS[op](right_op)
